@@ -251,6 +251,7 @@ def run_case(case):
             import pandas as pd
             ocat = {str(c) for c in flat.columns if isinstance(flat[c].dtype, pd.CategoricalDtype) and flat[c].dtype.ordered}
             try:
+                P.judgeable(prog, flat)
                 groups = P.normalise_program(P.adapt_program(prog, f32, ocat))
                 explained_rg = set()
                 # (b) decision-level (first, so that result-level failures it explains are not reported twice)
